@@ -16,6 +16,8 @@ SERVER_BEHAVIOURS = [
     {"framing": "cl", "stray": "garbage-now"}, {"framing": "cl", "stray": "response-now"}, {"framing": "cl", "stray": "garbage-idle"}, {"framing": "cl", "stray": "response-idle"}, {"framing": "cl", "stray": "eof-idle"},
     {"framing": "cl", "body_cuts": [54]}, {"framing": "cl", "body_cuts": [27, 54, 81]}, {"framing": "cl", "body_cuts": [36, 72]}, {"framing": "cl", "body_cuts": [9, 64, 100]},
     {"framing": "cl", "tail-half": True}, {"framing": "cl", "body-is-response": True},
+    # the read fails (timeout / I/O error) right before the part of the body that looks like a response arrives
+    {"framing": "cl", "tail-half": True, "timeout_at_recv": 2}, {"framing": "cl", "tail-half": True, "reset_at_recv": 2}, {"framing": "cl", "body-is-response": True, "timeout_at_recv": 1}, {"framing": "cl", "tail-half": True, "timeout_at_recv": 1},
     {"framing": "cl", "short": True}, {"framing": "cl", "extra-beyond-cl": True}, {"framing": "cl", "segments": 6, "tail-looks-like-response": True},
     {"framing": "cl", "segments": 6, "timeout_at_recv": 2}, {"framing": "chunked", "segments": 8, "timeout_at_recv": 3}, {"framing": "cl", "segments": 5, "reset_at_recv": 2},
     {"framing": "chunked", "stray": "response-idle"}, {"status": 204, "stray": "response-now"}, {"status": 304, "stray": "response-idle"}, {"status": 204}, {"pre100": True, "framing": "cl"}, {"pre100": True, "framing": "cl", "stray": "response-idle"},
@@ -89,6 +91,10 @@ class DesyncServer:
             h = msg.index(b"\r\n\r\n", msg.index(b"HTTP/1.1 " + str(status).encode())) + 4
             cuts = [0] + sorted(c for c in b["body_cuts"] if 0 < c < len(msg) - h) + [len(msg) - h]  # (no cut inside: head, then the whole body)
             sc.write_segmented([msg[:h]] + [msg[h + a : h + z] for a, z in zip(cuts, cuts[1:])])
+            if "timeout_at_recv" in b:
+                st.recv_faults[st.n_recv + int(b["timeout_at_recv"])] = netsim.make_exc("timeout")
+            if "reset_at_recv" in b:
+                st.recv_faults[st.n_recv + int(b["reset_at_recv"])] = netsim.make_exc("EIO")
         elif b.get("segments"):
             n = max(1, len(msg) // int(b["segments"]))
             sc.write_segmented([msg[i : i + n] for i in range(0, len(msg), n)])
